@@ -22,7 +22,7 @@ CLAIMED = {
              tech="concolic path exploration of element_finder/probes + nlsat validity queries per path", ref="4/C14"),
  'C15': dict(text="explicit histories on shared element/mapping/basis/mesh/solver objects with symbolic call arguments: last result == same call on fresh objects (identity for all argument values), operands unchanged; covers Legendre, Vandermonde and Jacobian caches, lazy members, solver closures, tag dictionaries",
              tech="symbolic execution of call histories + identity queries 'stateful == fresh'", ref="4/C15"),
- 'C18': dict(text="restrict/remove/transform/split/extrude on meshes whose symbolic coordinates double as tracers: slot-by-slot coordinate identities, index maps, tag designation by vertex sets, T(p) for symbolic parameters, reflection identities, oriented() positivity per path; join/duplicate-merge excluded",
+ 'C18': dict(text="restrict/remove/transform/split/extrude on meshes whose symbolic coordinates double as tracers: slot-by-slot coordinate identities, index maps, tag designation by vertex sets, T(p) for symbolic parameters, reflection identities, oriented() positivity per path; joins (m1 + m2, m1 @ m2, remove_duplicate_nodes) of the parts of one symbolic mesh with NumPy's row-unique idiom replaced by its contract on symbolic rows (nominal point ordering; float-level merge effects excluded)",
              tech="symbolic execution of mesh operations with tracer coordinates + identity / inequality queries", ref="4/C18"),
  'C19': dict(text="split/interpolate consistency, coupled matrix blocks == separately assembled component forms (also Form.block), asm over all cell partitions, tolocal/fromlocal/inverse/dot/add of elemental data, for vector and composite elements incl. 3-D edge/facet layouts and reuse histories",
              tech="symbolic execution of split/assembly/COOData plumbing + identity queries", ref="4/C19"),
